@@ -18,20 +18,18 @@ def run(tier, rep):
             items.append((text, ['  ']))
     if tier == 'thorough':
         seen = set(t for t, i in items)
-        for kind in ('S', 'E'):
-            for b in G.chains(3, kind):
-                lex = b.lex if kind == 'S' else G.as_statement(b).lex
-                t = G.render(lex)
-                if t not in seen:
-                    seen.add(t)
-                    items.append((t, ['  ']))
+        for lex in G.chain_programs(3, G.CORE_FORMS):
+            t = G.render(lex)
+            if t not in seen:
+                seen.add(t)
+                items.append((t, ['  ']))
     total = P.run_cases(items, lambda acc, it: P.case_c01(acc, it[0], it[1]))
     rep.space('programs', count=len(items))
     rep.cov['bounds'] = {'S2_k': 2 if tier == 'quick' else 3,
                          'indents': P.INDENTS}
     P.finish(rep, total, (
         'every text of S0 (repo test literals), S2(k) (all derivations with '
-        '<= k constructors, k=3 as single-path chains) and the adjacent-leaf '
+        '<= k constructors, k=3 as single-path chains below a core form set) and the adjacent-leaf '
         'product, each x indentation strings; states = programs, transitions '
         '= (program, indent) pairs printed and read back by the '
         'implementation and by the reference parser R2; non-trivial = the '
